@@ -852,16 +852,24 @@ fn revert_case(nbase: usize, nlog: usize, ncur: usize, idx: usize, prefix: bool)
     assert!(idx <= nlog);
     let mut want = flat_base(&base);
     let mut us = [Upd { c: 0, v: None }; 3];
-    let mut log = Vec::with_capacity(8);
     let mut j = 0;
     while j < nlog {
         us[j] = any_upd();
-        log.push(mk_log_entry(us[j]));
         if j < idx {
             want[us[j].c as usize] = us[j].v;
         }
         j += 1;
     }
+    // built with vec![..] (one typed boxed array), see revert.rs
+    let log = if nlog == 0 {
+        Vec::new()
+    } else if nlog == 1 {
+        vec![mk_log_entry(us[0])]
+    } else if nlog == 2 {
+        vec![mk_log_entry(us[0]), mk_log_entry(us[1])]
+    } else {
+        vec![mk_log_entry(us[0]), mk_log_entry(us[1]), mk_log_entry(us[2])]
+    };
     let mut s = new_session(base, log, cur);
     // a live query iterator keeps the Arc shared: revert must then build a fresh map
     let shared: bool = kani::any();
